@@ -222,6 +222,33 @@ def run_driver(engine: str, lines: list[str], timeout: int = 3000) -> list[str]:
     return p.stdout.splitlines()
 
 
+_persistent: dict = {}
+
+
+def run_driver_persistent(engine: str, lines: list[str]) -> list[str]:
+    """Same contract as run_driver, but keeps one driver process per engine alive (the driver answers line by line)."""
+    mod = DRIVER_MODULES[engine]
+    if mod not in _driver_built:
+        ok, log = lake_build([mod])
+        if not ok:
+            raise RuntimeError(f"cannot build the Lean driver {mod}: {log[-2000:]}")
+        _driver_built.add(mod)
+    p = _persistent.get(engine)
+    if p is None or p.poll() is not None:
+        p = subprocess.Popen(["lake", "env", "lean", "--run", f"Drivers/{engine}.lean"], cwd=LEAN, stdin=subprocess.PIPE,
+                             stdout=subprocess.PIPE, stderr=subprocess.DEVNULL, text=True, bufsize=1)
+        _persistent[engine] = p
+    out = []
+    for l in lines:
+        p.stdin.write(l + "\n")
+        p.stdin.flush()
+        r = p.stdout.readline()
+        if not r:
+            raise RuntimeError(f"Lean driver ({engine}) died")
+        out.append(r.rstrip("\n"))
+    return out
+
+
 def write_generated(path: Path, content: str) -> bool:
     """Write a generated Lean file only when its content changes (keeps no-op builds fast)."""
     if path.exists() and path.read_text() == content:
